@@ -266,6 +266,18 @@ func (w *World) isRepoLike(fn *ssa.Function) bool {
 			return strings.HasPrefix(n.Obj().Pkg().Path(), modPath)
 		}
 	}
+	if p == nil && fn.Synthetic != "" {
+		// bound-method wrappers and thunks have neither package nor receiver: decide by what they forward to
+		for _, b := range fn.Blocks {
+			for _, ins := range b.Instrs {
+				if c, ok := ins.(ssa.CallInstruction); ok {
+					if g := c.Common().StaticCallee(); g != nil && g != fn && (w.isSubjectFunc(g) || g.Pkg == w.Grammar) {
+						return true
+					}
+				}
+			}
+		}
+	}
 	return p != nil && p == w.Grammar
 }
 
